@@ -45,6 +45,20 @@ Theorem C12_metric_methods_pure : forall e, In e metric_methods ->
 Proof. exact metric_methods_pure. Qed.
 Print Assumptions C12_metric_methods_pure.
 
+(** the only generator of randomness called anywhere in the analysed modules is numpy's global one (no
+    np.random.default_rng / RandomState / random / time / os.environ): with C12_entry_points_self_writes (no
+    instance or module-level state is written by apply_location, reflective access included) this is what makes
+    the result a function of the settings, the arguments and that generator's state.  Every call met by the
+    extractor was classified by its tables (an unknown library function or method would have been treated as
+    writing its arguments and listed here). *)
+Theorem C12_only_the_global_generator : other_random_sources = [].
+Proof. exact no_other_random_sources. Qed.
+Print Assumptions C12_only_the_global_generator.
+
+Theorem C12_every_call_classified : unclassified_calls = [].
+Proof. exact no_unclassified_calls. Qed.
+Print Assumptions C12_every_call_classified.
+
 (** non-vacuity: the entry points are the five definitions the eight classes resolve to, and the extracted
     program really contains mutating helpers (reached only with fresh slices) *)
 Example C12_nonvacuous :
